@@ -53,19 +53,62 @@ def pick_size(rng, tier, two_d, lo=12, hi=None):
     return n
 
 
+DTYPE_CLASSES = ["float64", "float64", "float64", "float64", "int16", "int32", "int64", "float32", "float32", "mixed"]
+
+
+def lattice_points(rng, n):
+    """``n`` pairwise different points with integer coordinates (a random subset of a lattice, random origin)."""
+    side = int(max(12, np.ceil(3 * np.sqrt(n))))
+    step = int(rng.choice([1, 1, 3, 10]))
+    cells = rng.permutation(side * side)[:n]
+    origin = rng.integers(-500, 500, 2) if rng.random() < 0.5 else np.zeros(2, dtype=int)
+    east = (cells % side) * step + origin[0]
+    north = (cells // side) * step + origin[1]
+    kinds = [str(rng.choice(["int32", "int64"])) for _ in range(2)]
+    return east.astype(kinds[0]), north.astype(kinds[1])
+
+
+def cast_component(rng, values, kind):
+    """The data component in the dtype class ``kind`` (integer classes hold integer values that no smooth model predicts exactly)."""
+    if kind.startswith("int"):
+        return np.round(values).astype(kind)
+    return values.astype(kind)
+
+
 class Problem:
     """coordinates, data (array or tuple), weights (None / array / tuple), as handed to verde."""
 
-    def __init__(self, rng, gen, tier, ncomp=1, weighted=None, two_d=None, extra=None, n=None, reducible=True, hi=None):
+    def __init__(self, rng, gen, tier, ncomp=1, weighted=None, two_d=None, extra=None, n=None, reducible=True, hi=None,
+                 dtype_class=None, int_coords=None):
         two_d = bool(rng.random() < 0.35) if two_d is None else two_d
         weighted = bool(rng.random() < 0.5) if weighted is None else weighted
         extra = bool(rng.random() < 0.2) if extra is None else extra
+        int_coords = bool(rng.random() < 0.15) if int_coords is None else int_coords
+        if dtype_class is None:
+            dtype_class = str(rng.choice(DTYPE_CLASSES))
+        if dtype_class == "mixed" and ncomp == 1:
+            dtype_class = str(rng.choice(["int16", "int32", "int64", "float32"]))
         n = n or pick_size(rng, tier, two_d, hi=hi)
-        east, north = make_points(rng, gen, n, reducible=reducible)
-        self.pts = (east, north)
+        if int_coords:
+            east, north = lattice_points(rng, n)
+        else:
+            east, north = make_points(rng, gen, n, reducible=reducible)
+        self.pts = (east.astype("float64"), north.astype("float64"))
         self.n = n
-        amplitude = _log_uniform(rng, 1e-2, 1e3)
-        comps = [make_field(rng, gen, east, north, amplitude * _log_uniform(rng, 0.3, 3.0)) for _ in range(ncomp)]
+        if dtype_class == "float64":
+            amplitude = _log_uniform(rng, 1e-2, 1e3)
+        else:  # integer-valued data must stay inside int16 and must not round to a constant
+            amplitude = _log_uniform(rng, 30.0, 800.0)
+        comps = [make_field(rng, gen, self.pts[0], self.pts[1], amplitude * _log_uniform(rng, 0.3, 3.0)) for _ in range(ncomp)]
+        if dtype_class == "mixed":
+            kinds = [str(rng.choice(["int16", "int32", "int64"])), "float64"] + [str(rng.choice(["float32", "int32", "float64"]))] * (ncomp - 2)
+            kinds = [kinds[i] for i in rng.permutation(ncomp)]
+        else:
+            kinds = [dtype_class] * ncomp
+        comps = [cast_component(rng, c, k) for c, k in zip(comps, kinds)]
+        self.kinds = kinds
+        self.dtype_class = dtype_class
+        self.int_coords = int_coords
         wts = [make_weights(rng, n) for _ in range(ncomp)] if weighted else None
         coords = [east, north] + ([rng.uniform(0, 100, n)] if extra else [])
         shaped = layout(rng, coords + comps + (wts or []), two_d)
@@ -93,6 +136,8 @@ class Problem:
         pad = 0.1
         e = rng.uniform(east.min() - pad * np.ptp(east), east.max() + pad * np.ptp(east), m)
         nn = rng.uniform(north.min() - pad * np.ptp(north), north.max() + pad * np.ptp(north), m)
+        if self.int_coords and rng.random() < 0.5:
+            e, nn = np.round(e).astype("int64"), np.round(nn).astype("int32")
         arrays = [e, nn] + ([rng.uniform(0, 100, m)] if self.extra and rng.random() < 0.5 else [])
         return layout(rng, arrays, bool(rng.random() < 0.3) if two_d is None else two_d)
 
@@ -329,7 +374,7 @@ def refit(run, verde, gen, rng, tier, batch):
 
 def filters(run, verde, gen, rng, tier, batch):
     """Direct filter calls on single estimators, 2-D data and extra coordinates included, and a hand-made pipeline."""
-    for _ in range(batch):
+    for done in range(batch):
         problem = Problem(rng, gen, tier, ncomp=1, two_d=bool(rng.random() < 0.6), hi=80)
         builder = Builder(rng, verde)
         for _ in range(3):
@@ -352,7 +397,56 @@ def filters(run, verde, gen, rng, tier, batch):
         if multi.ncomp == 2 and multi.n <= 60:
             e, n = multi.pts
             verde.VectorSpline2D(mindist=float(0.2 * max(np.ptp(e), np.ptp(n))), damping=1e-2).filter(*multi.args())
+        if done < 2:
+            dtype_sweep(run, verde, gen, rng, tier)
+            integer_first_prediction(run, verde, gen, rng, tier)
         run.count("workload:filter_batches")
+
+
+def dtype_sweep(run, verde, gen, rng, tier):
+    """Every data-dtype class through a direct filter and through a chain whose first predicting step is followed by another step."""
+    for kind in ("int16", "int32", "int64", "float32"):
+        problem = Problem(rng, gen, tier, ncomp=1, hi=60, dtype_class=kind, int_coords=bool(rng.random() < 0.3))
+        builder = Builder(rng, verde)
+        builder.gridder(problem.n, problem.pts, True, 2, problem.weighted).filter(*problem.args())
+        first = builder.gridder(problem.n, problem.pts, False, 2, problem.weighted)
+        second = builder.gridder(problem.n, problem.pts, True, 2, problem.weighted)
+        chain = verde.Chain([("first", first), ("second", second)])
+        chain.fit(*problem.args())
+        chain.predict(problem.coordinates)
+    for kind in ("mixed", str(rng.choice(["int16", "int32", "int64", "float32"]))):
+        ncomp = int(rng.choice([2, 2, 3]))
+        problem = Problem(rng, gen, tier, ncomp=ncomp, hi=50, dtype_class=kind, int_coords=bool(rng.random() < 0.3))
+        builder = Builder(rng, verde)
+        verde.Vector([builder.gridder(problem.n, problem.pts, True, 2, problem.weighted) for _ in range(ncomp)]).filter(*problem.args())
+        steps = [("first", verde.Vector([builder.gridder(problem.n, problem.pts, False, 2, problem.weighted) for _ in range(ncomp)])),
+                 ("second", verde.Vector([builder.gridder(problem.n, problem.pts, True, 2, problem.weighted) for _ in range(ncomp)]))]
+        chain = verde.Chain(steps)
+        chain.fit(*problem.args())
+        chain.predict(problem.coordinates)
+    run.count("workload:dtype_sweeps")
+
+
+def integer_first_prediction(run, verde, gen, rng, tier):
+    """
+    A chain whose first prediction has an integer dtype (KNeighbors with a max/min reduction on integer data) followed by a trend.
+    Chain.predict accumulates in place in the array of the first prediction; the monitors judge the sum whenever it returns.
+    """
+    problem = Problem(rng, gen, tier, ncomp=1, hi=50, weighted=False, dtype_class=str(rng.choice(["int16", "int32", "int64"])))
+    knn = verde.KNeighbors(k=int(rng.integers(2, 4)), reduction=(np.max if rng.random() < 0.5 else np.min))
+    chain = verde.Chain([("neighbours", knn), ("trend", verde.Trend(int(rng.integers(1, 3))))])
+    chain.fit(*problem.args())
+    try:
+        chain.predict(problem.coordinates)
+        run.count("integer_first_prediction:returned")
+    except TypeError as exc:
+        if "Cannot cast ufunc" not in str(exc):
+            raise
+        # not a documented refusal: recorded and reported, but a raise is outside what the C06 monitors judge (DESIGN 1.5)
+        run.count("undocumented_exception:Chain.predict:UFuncTypeError(integer first prediction, float later)")
+        if not any("integer first prediction" in note for note in run.notes):
+            run.notes.append("Chain.predict raised %s for Chain[KNeighbors(reduction=max|min) > Trend] fitted on %s data (integer first prediction): %s"
+                             % (type(exc).__name__, problem.dtype_class, str(exc)[:160]))
 
 
 AMBIENT_FILES = ["test_chain.py", "test_vector.py", "test_base.py", "test_blockreduce.py"]
